@@ -54,6 +54,8 @@ pub fn gcd_factors(n: &Uint, vals: &[MInt]) -> (Vec<Uint>, Uint) {
 /// (ECM and P±1 stage 2).
 pub fn gcd_factors(n: &Uint, vals: &[MInt]) -> (r: (Vec<Uint>, Uint))
     requires uv(*n) > 0, vals.len() >= 1, gcd_chain(*n, vals@),
+        // pseudoprime (ZmodN::new) accepts at most 512 bits
+        uv(*n) < vstd::arithmetic::power2::pow2(512),
     ensures
         // nothing false: the factors and the cofactor multiply back to n, every listed factor is a non-trivial divisor
         seq_prod(r.0@) * uv(r.1) == uv(*n),
@@ -68,6 +70,7 @@ pub fn gcd_factors(n: &Uint, vals: &[MInt]) -> (r: (Vec<Uint>, Uint))
     fn find_factors(n: &Uint, vals: &[MInt], gcd1: &Uint, gcd2: &Uint, factors: &mut Vec<Uint>)
         requires
             uv(*n) > 0, vals.len() >= 1, gcd_chain(*n, vals@),
+            uv(*n) < vstd::arithmetic::power2::pow2(512),
             uv(*gcd1) == gval(*n, vals@[0]), uv(*gcd2) == gval(*n, vals@[vals.len() - 1]),
         ensures
             final(factors)@.len() >= old(factors)@.len(),
@@ -102,6 +105,16 @@ pub fn gcd_factors(n: &Uint, vals: &[MInt]) -> (r: (Vec<Uint>, Uint))
             axiom_buint_eq(*gcd2, p.mul_spec(*gcd1));
             assert(uv(*gcd2) > uv(*gcd1)) by { lemma_mul_le(2, k as int, uv(*gcd1) as int); };
             assert(uv(p.mul_spec(*gcd1)) == uv(*gcd2));
+            // p <= gcd2 <= n < 2^512
+            lemma_gcd_spec(uv(*n), limbs(vals@[vals.len() - 1].0@));
+            let kn = lemma_dvd_witness(uv(*gcd2), uv(*n));
+            if kn == 0 { lemma_mul_one(uv(*gcd2) as int); }
+            lemma_mul_le2(uv(*gcd2) as int, uv(*gcd2) as int, 1, kn as int);
+            lemma_mul_one(uv(*gcd2) as int);
+            lemma_mul_le2(1, uv(*gcd1) as int, uv(p) as int, uv(p) as int);
+            lemma_mul_one(uv(p) as int);
+            lemma_mul_comm(uv(p) as int, uv(*gcd1) as int);
+            lemma_bitlen_le(uv(p), 512);
         }
         debug_assert!(gcd2 > gcd1 && *gcd2 == p * gcd1);
         if crate::pseudoprime(p) || vals.len() <= 2 {
